@@ -956,7 +956,7 @@ func runC11(c *Cfg) {
 								if hour {
 									pol = []string{"random", "first", "last"}[idx%3]
 								}
-								cases = append(cases, &BatchCase{Family: "in-exec", N: n, C: cc, Stop: stop, SetMode: true, Budget: budget, Items: it, Shape: "results", Build: "builder", ExecStyle: []string{"result", "any"}[idx%2], Gated: true, Policy: pol, PSeed: uint64(c.Seed)*7919 + uint64(idx), WaitHour: hour, Cancel: &CancelSpec{Kind: kind, Item: item, Attempt: att}})
+								cases = append(cases, &BatchCase{Family: "in-exec", N: n, C: cc, Stop: stop, SetMode: true, Budget: budget, Items: it, Shape: "results", Build: "builder", ExecStyle: []string{"result", "any"}[idx%2], Gated: true, Policy: pol, PSeed: uint64(c.Seed)*7919 + uint64(idx), WaitHour: hour, Cancel: &CancelSpec{Kind: kind, Item: item, Attempt: att}, PostCtxAware: idx%3 == 1, TempErrs: idx%4 == 2})
 								idx++
 							}
 						}
